@@ -35,8 +35,9 @@ Theorem C08_check_total : forall fs root trad f l, check fs root trad <> Err KFu
 Proof. exact check_not_fuel. Qed.
 Print Assumptions C08_check_total.
 
-(* A REJECTION cites either a file-level condition (missing file, missing proto statement: no
-   line) or the line of a statement of the cited file; for the kinds of the numeric rules that
+(* A REJECTION is never a crash (every error kind of the model is a ParserError class, except
+   the OS error for a missing file) and cites either a file-level condition (missing file,
+   missing proto statement: no line) or the line of a statement of the cited file; for the kinds of the numeric rules that
    statement breaks the documented bound ([rule_broken]) *)
 Theorem C08_error_cites : forall fs root trad k f l,
   check fs root trad = Err k f l -> cited fs k f l.
@@ -66,32 +67,31 @@ Theorem C08_accepted_types_wf : forall fs root trad e p t,
 Proof. exact accepted_types_wf. Qed.
 Print Assumptions C08_accepted_types_wf.
 
-(* FINDINGS (replayed on the real compiler: corpus/C08/).  The property text has no clause about
-   dividing by zero in a constant expression; the compiler does not accept such a schema, and
-   does not reject it with a parser error either: ZeroDivisionError traceback. *)
+(* The property text has no clause about dividing by zero in a constant expression; the compiler
+   rejects such a schema (since fix ba6c9a1 with an ordinary CalculationExpressionError at the
+   line of the expression), so [Valid] carries the clause "divisors are non-zero" that
+   [ValidText] (the clauses the text lists, literally) lacks: *)
 Definition ex_div0 : files := [("r"%string, [IProto 1 "r"; IConst 2 "A" (CExpr (EDiv (EInt 1) (EInt 0)))]%string)].
 
-Theorem C08_complete_for_the_text_refuted :
-  exists fs root, ValidText fs root false /\ exists f l, check fs root false = Err KZeroDivCrash f l.
-Proof. exact text_completeness_refuted. Qed.
-Print Assumptions C08_complete_for_the_text_refuted.
+Theorem C08_text_has_no_division_clause :
+  exists fs root, ValidText fs root false /\ check fs root false = Err KCalcExpr root 2.
+Proof. exact text_has_no_division_clause. Qed.
+Print Assumptions C08_text_has_no_division_clause.
 
-(* an import inside a message: AttributeError traceback instead of ImportInMessageUnsupported *)
+(* REGRESSION WITNESSES of three fixed findings (corpus/C08/, fix: commits ba6c9a1 and 5271e56):
+   division by zero and an import inside a message used to escape as tracebacks, an import
+   inside an enum used to cite the imported file at line 0.  All three are now parser errors
+   citing the offending statement of the importing file. *)
 Definition ex_import_in_msg : files :=
   [("r"%string, [IProto 1 "r"; IMsg 2 "M" false [IImport 3 None "lib"]]%string);
    ("lib"%string, [IProto 1 "lib"]%string)].
 
-Example C08_rejection_is_a_traceback_refuted :
-  check ex_div0 "r" false = Err KZeroDivCrash "r" 2 /\
-  check ex_import_in_msg "r" false = Err KImportInMessageCrash "r" 3.
-Proof. split; vm_compute; reflexivity. Qed.
-
-(* an import inside an enum is rejected with a parser error, but it cites the IMPORTED file,
-   line 0, not the offending statement (r, line 3) *)
-Example C08_import_in_enum_cites_the_imported_file :
+Example C08_fixed_findings_cite_the_statement :
+  check ex_div0 "r" false = Err KCalcExpr "r" 2 /\
+  check ex_import_in_msg "r" false = Err KImportInMessage "r" 3 /\
   check [("r"%string, [IProto 1 "r"; IEnum 2 "E" (SUint 3) [IImport 3 None "lib"]]%string);
-         ("lib"%string, [IProto 1 "lib"]%string)] "r" false = Err KImportInEnum "lib" 0.
-Proof. vm_compute. reflexivity. Qed.
+         ("lib"%string, [IProto 1 "lib"]%string)] "r" false = Err KImportInEnum "r" 3.
+Proof. repeat split; vm_compute; reflexivity. Qed.
 
 (* ---------- boundary values, both sides of every numeric limit ---------- *)
 
